@@ -166,3 +166,92 @@ def write_progs(path, descs):
     with open(path, "w") as f:
         json.dump(descs, f)
     return path
+
+
+# ---------------------------------------------------------------- regression-prone shapes
+def _types(x):
+    """all type descriptions inside a method / parameter list (pre-order)"""
+    if isinstance(x, dict):
+        if "k" in x:
+            yield x
+        for v in x.values():
+            yield from _types(v)
+    elif isinstance(x, list):
+        for v in x:
+            yield from _types(v)
+
+
+def _named_from(t, suffix):
+    return t.get("k") == "named" and t.get("pkg", "").endswith(suffix)
+
+
+def method_shapes(m):
+    s = set()
+    ps, rs = m.get("ps") or [], m.get("rs") or []
+    if m.get("variadic") and ps:
+        e = ps[-1]["t"].get("elem") or {}
+        if e.get("k") == "ptr":
+            e = e.get("elem") or {}
+        if _named_from(e, "/sib/ren"):
+            s.add("variadic_named_renamed_import")
+    for t in _types([ps, rs]):
+        if t["k"] == "map" and (t.get("elem") or {}).get("k") == "slice":
+            p = t["elem"].get("elem") or {}
+            g = p.get("elem") or {}
+            if p.get("k") == "ptr" and g.get("k") == "named" and any(
+                    a.get("k") == "named" and "/sib/" in a.get("pkg", "") for a in _types(g.get("args") or [])):
+                s.add("map_slice_ptr_generic_sibling_args")
+        if _named_from(t, "/sib/odd-dir") or _named_from(t, "/sib/v2"):
+            s.add("dir_differs_from_package")
+        if t["k"] == "func" and len(t.get("rs") or []) >= 2:
+            s.add("func_param_multiple_results")
+        if t["k"] == "array" and t.get("lenconst"):
+            s.add("array_constant_length")
+    if any(i > 0 and p["name"] in ("", "_") and p.get("ctx") for i, p in enumerate(ps)):
+        s.add("unnamed_context_not_first")
+    names = [p["name"] for p in ps + rs]
+    if len(names) >= 2 and all(GENERATED.match(n) for n in names):
+        s.add("user_names_equal_generated_everywhere")
+    return s
+
+
+def min_depths(tree, name):
+    """for each embedded field of the target: the shallowest depth at which its subtree declares name"""
+    def depth(t, d):
+        if any(m["name"] == name for m in t.get("own") or []):
+            return d
+        ds = [x for x in (depth(e, d + 1) for e in t.get("emb") or []) if x]
+        return min(ds) if ds else 0
+    return [depth(e, 1) for e in tree.get("emb") or []]
+
+
+def same_name_many_fields(tree):
+    """a name provided under >= 3 embedded fields, not all at the same depth, unique at its shallowest"""
+    own = {m["name"] for m in tree.get("own") or []}
+    for n in {m["name"] for m in all_methods(tree)} - own:
+        ds = [d for d in min_depths(tree, n) if d]
+        if len(ds) >= 3 and len(set(ds)) > 1 and ds.count(min(ds)) == 1:
+            return True
+    return False
+
+
+def shape_coverage(jsons):
+    """how many cases contain each regression-prone shape (own methods of the target; the
+    constant-length array is only visible in the generator's description)"""
+    keys = ["variadic_named_renamed_import", "map_slice_ptr_generic_sibling_args", "dir_differs_from_package",
+            "unnamed_context_not_first", "func_param_multiple_results", "array_constant_length",
+            "user_names_equal_generated_everywhere", "same_name_under_three_fields_shallowest_unique"]
+    out = {k: 0 for k in keys}
+    for j in jsons:
+        found = set()
+        for m in j["tree"]["own"]:
+            found |= method_shapes(m)
+        for st in (j.get("desc") or {}).get("structs") or []:
+            if st["name"] == j["target"]:
+                for m in st.get("methods") or []:
+                    found |= {x for x in method_shapes(m) if x == "array_constant_length"}
+        if j["emb"] and same_name_many_fields(j["tree"]):
+            found.add("same_name_under_three_fields_shallowest_unique")
+        for k in found:
+            out[k] += 1
+    return out
